@@ -247,13 +247,14 @@ func TestVerifC19Sets(t *testing.T) {
 				failing := sim.fail
 				sim.mu.Unlock()
 				if idx > cur && !failing {
+					// the store learns the sets the chain HAS (the range is capped at the contract's current index); an index
+					// beyond it is answered with an error and nothing is stored for it
 					for i := cur + 1; i <= idx; i++ {
 						if _, ok := expect[i]; !ok {
 							if i < chainLen {
 								expect[i] = histHex[i]
 							} else {
-								expect[i] = ""
-								poisoned++
+								poisoned++ // (counted: lookups that reached beyond the chain)
 							}
 						}
 					}
@@ -275,6 +276,8 @@ func TestVerifC19Sets(t *testing.T) {
 							mon = append(mon, fmt.Sprintf("GetGuardianSet(%d) returned the set with index %d", idx, res.Index))
 						} else if want, ok := expect[idx]; ok && res.Keys != want {
 							mon = append(mon, fmt.Sprintf("GetGuardianSet(%d) returned keys that are not those of set %d", idx, idx))
+						} else if !ok {
+							mon = append(mon, fmt.Sprintf("GetGuardianSet(%d) returned a set (%d keys) although neither the chain (sets 0..%d) nor an update has ever had a set with that index", idx, len(res.Keys)/40, chainLen-1))
 						}
 					}
 				}
@@ -288,6 +291,7 @@ func TestVerifC19Sets(t *testing.T) {
 		o.emit(map[string]interface{}{"k": "sets", "sc": sc, "K": K, "k0": k0, "gap": gapScenario, "hist": histHex, "chain0": chainLen0, "ops": ops, "mon": mon, "poisoned": poisoned})
 	}
 	verifC19FaultScenarios(o, r, sim)
+	verifC19FutureIndexScenarios(o, r, sim)
 }
 
 // transient fault on ONE set inside a range that is being fetched (rows "sets-fault", monitors only): the lookup may fail, but
@@ -347,6 +351,67 @@ func verifC19FaultScenarios(o *vout, r *vrng, sim *verifEthSim) {
 		sim.failIdx = nil
 		sim.mu.Unlock()
 		o.emit(map[string]interface{}{"k": "sets-fault", "sc": sc, "K": K, "k0": k0, "failing_set": bad, "cur": cur, "list": idxs, "ops": ops, "mon": mon})
+	}
+}
+
+// a lookup of an index the chain does not have YET (any gossiped VAA naming it triggers one: the lookup comes before the signature
+// check), then the chain gets that set: "the guardian set it returns for index i is always the set with index i" — from then on a
+// lookup of i returns the chain's set i (rows "sets-future", monitors only); the periodic updater's own fetch in between changes nothing
+func verifC19FutureIndexScenarios(o *vout, r *vrng, sim *verifEthSim) {
+	for sc := 0; sc < 6; sc++ {
+		K := 4 + r.below(3)
+		hist := make([][]eth_common.Address, K)
+		for i := range hist {
+			hist[i] = verifAddrs(r, 1+r.below(3))
+		}
+		c0 := 1 + r.below(2) // the chain and the store both hold sets 0 .. c0-1
+		init := []*common.GuardianSet{}
+		for i := 0; i < c0; i++ {
+			init = append(init, &common.GuardianSet{Keys: hist[i], Index: uint32(i)})
+		}
+		c := make(chan *common.GuardianSet, 64)
+		gs := verifStore(init, sim.url, c)
+		sim.set(hist[:c0], false)
+		ahead := sc % 3 // the looked-up index is c0, c0+1 or c0+2
+		mon := []string{}
+		ops := []map[string]interface{}{}
+		early := verifGet(gs, c0+ahead)
+		ops = append(ops, map[string]interface{}{"op": "get", "idx": c0 + ahead, "res": early, "chain_has_sets": c0})
+		if early.Res == "panic" {
+			mon = append(mon, fmt.Sprintf("GetGuardianSet(%d) panicked while the chain has sets 0..%d: %s", c0+ahead, c0-1, early.Msg))
+		}
+		// the chain appoints the sets up to c0+ahead (and one more)
+		grown := c0 + ahead + 1
+		if grown > K {
+			grown = K
+		}
+		sim.set(hist[:grown], false)
+		if sc%2 == 1 {
+			// what the periodic updater does at its next tick
+			if batch, err := GetGuardianSetsFromChain(context.Background(), sim.url, gs.ethGovernanceAddress, uint32(gs.currentIndex()+1)); err == nil {
+				gs.updateGuardianSets(batch)
+			}
+			ops = append(ops, map[string]interface{}{"op": "updater-tick"})
+		}
+		for i := 0; i < grown; i++ {
+			res := verifGet(gs, i)
+			ops = append(ops, map[string]interface{}{"op": "get", "idx": i, "res": res, "chain_has_sets": grown})
+			switch res.Res {
+			case "panic":
+				mon = append(mon, fmt.Sprintf("GetGuardianSet(%d) panicked: %s", i, res.Msg))
+			case "ok":
+				if res.Index != int64(i) {
+					mon = append(mon, fmt.Sprintf("GetGuardianSet(%d) returned the set with index %d", i, res.Index))
+				} else if res.Keys != verifKeysHex(hist[i]) {
+					mon = append(mon, fmt.Sprintf("GetGuardianSet(%d) returns %d keys that are not those of the chain's set %d (%d keys): index %d was looked up once while the chain only had sets 0..%d — any gossiped VAA naming it does that, before its signatures are looked at — and what the contract answered then was stored for good; VAAs signed by set %d can no longer be verified", i, len(res.Keys)/40, i, len(hist[i]), c0+ahead, c0-1, i))
+				}
+			default:
+				mon = append(mon, fmt.Sprintf("GetGuardianSet(%d) fails although the chain has sets 0..%d: %s", i, grown-1, res.Msg))
+			}
+		}
+		cur, idxs := verifProj(gs)
+		verifDrain(c)
+		o.emit(map[string]interface{}{"k": "sets-future", "sc": sc, "K": K, "c0": c0, "ahead": ahead, "grown": grown, "cur": cur, "list": idxs, "ops": ops, "mon": mon})
 	}
 }
 
